@@ -73,8 +73,13 @@ def gen_cases(ctx, n_per_kind):
                 if k.startswith("ellip"):
                     # the orientation / axis-ratio clauses hold for 0.3 ≤ ellip ≤ 0.8: every third case sits on the upper edge
                     p[k] = 0.8 if i % 3 == 1 else float(rng.uniform(0.3, 0.8))
-            if t in ("doublesersic", "sersic_exp") and (i // 5) % 2 == 0:
-                p["ellip_2"] = p["ellip_1"]            # one well-defined axis ratio for the composite (every other round: two different ones)
+            if t in ("doublesersic", "sersic_exp"):
+                # alternately one well-defined axis ratio for the composite and two clearly different ones with the second
+                # component dominant (so that a component whose own ellipticity is ignored shows); each run has both kinds
+                if ((i // 5) % 2 == 0) == (t == "doublesersic"):
+                    p["ellip_2"] = p["ellip_1"]
+                else:
+                    p["ellip_1"], p["ellip_2"], p["f_1"] = float(rng.uniform(0.3, 0.4)), float(rng.uniform(0.65, 0.8)), float(rng.uniform(0.2, 0.4))
             if np.asarray(psf).shape[0] % 2 == 0:
                 # an even stamp is centred between pixels: the renderers shift by the half pixel in Fourier space (band-limited
                 # interpolation of the pixel-integrated image), the reference shifts the analytic profile; the two agree for sampled
